@@ -68,6 +68,35 @@ func c13Streams(c *ev.Ctx) []tstream {
 		xzs := ref.BuildXZ(ref.CheckCRC64, []ref.BlockSpec{{LZMA2: l2, Content: content, DictCode: 0}})
 		streams = append(streams, tstream{ID: fmt.Sprintf("genrawxz%d", i), Format: "xz", B: xzs, Content: content})
 	}
+	// streams whose content is longer than the reader's window, so that the decoder's ring
+	// buffer wraps inside the last chunk - with the last chunk raw, compressed, or a mix
+	wi := 0
+	for _, dict := range []int{4096, 8192} {
+		for _, shape := range [][2]string{{"random", ""}, {"random", "text"}, {"text", "random"}, {"zeros", "random"}, {"text", ""}, {"lowent", "random"}} {
+			for _, n := range []int{dict + 100, 2*dict + 2, 3*dict + 1717} {
+				wi++
+				a := gen.Data(r, shape[0], n)
+				if shape[1] != "" {
+					a = append(a[:n/3:n/3], gen.Data(r, shape[1], n-n/3)...)
+				}
+				var b2 bytes.Buffer
+				if w2, err := (lzma.Writer2Config{DictCap: dict, BufSize: 4096}).NewWriter2(&b2); err == nil {
+					w2.Write(a)
+					w2.Close()
+					streams = append(streams, tstream{ID: fmt.Sprintf("wrap2-%d", wi), Format: "lzma2", B: b2.Bytes(), Content: a, Dict: dict})
+				}
+				switch wi % 3 {
+				case 0:
+					streams = append(streams, tstream{ID: fmt.Sprintf("wrapxz-%d", wi), Format: "xz", B: libWriteXZ(xz.WriterConfig{DictCap: dict, BlockSize: int64(r.Pick(0, 0, n/2+1))}, a), Content: a})
+				case 1:
+					kk := lzCase{LC: 3, LP: 0, PB: 2, DictCap: dict, BufSize: 4096, Mode: wi % 2, Part: "one"}
+					if sk, dev, pn := runLZWriter(kk, a); dev == "" && pn == nil {
+						streams = append(streams, tstream{ID: fmt.Sprintf("wraplzma-%d", wi), Format: "lzma", B: sk.Buf, Content: a})
+					}
+				}
+			}
+		}
+	}
 	return streams
 }
 
